@@ -220,7 +220,7 @@ pub fn specs() -> Vec<PropSpec> {
         },
         PropSpec {
             id: "C09",
-            parts: &[("c09cuts", 48, 480), ("c09queue", 1600, 60000), ("c18", 160, 3000), ("c10fail", 480, 8000), ("netcrash", 64, 1500)],
+            parts: &[("c09cuts", 48, 480), ("c09queue", 1600, 60000), ("c18", 160, 3000), ("c10fail", 480, 8000), ("netcrash", 64, 1500), ("c09hist", 320, 5000)],
             level: "fault_enumeration",
             tags: &["C09", "LIVENESS"],
             rule: "Two kinds of evaluation. (1) c09cuts: one (operation, \
@@ -268,7 +268,14 @@ pub fn specs() -> Vec<PropSpec> {
                 netcrash: two-instance histories with process crashes of \
                 either instance in the middle of background tasks (see \
                 C08): background work must reach quiescence again after \
-                every restart.",
+                every restart. (5) c09hist: fault-free histories biased \
+                towards removals, entitlement changes and key rolls (CAs \
+                with two parents, hence children with several classes \
+                under one parent); at every quiescence the follow-up \
+                oracle of (1) must hold: object sets at the repository, \
+                served files equal to the content, and no parent with a \
+                key in use that its child gave up (the revocation that \
+                follows a removed class or a finished roll).",
             assumptions: CUT_ASSUMPTIONS,
         },
         PropSpec {
